@@ -61,6 +61,41 @@ def conv_impls(F):
     return out
 
 
+def check_luma_edges(F, rep, S, impls):
+    """ALG-REF for the four hand-written Luma edges.  The transfer function stays uninterpreted (C05 decides it); what is decided is WHICH
+    function is applied (the luma standard's own, decode on the way out of Luma, encode on the way in), to WHICH component, and that the
+    chromaticity of a gray is the white point's: Xyz = wp * Y, Yxy = (wp.x / sum(wp), wp.y / sum(wp), Y).  Together with conv:Yxy<-Xyz this makes
+    Luma -> Yxy equal to Luma -> Xyz -> Yxy whenever wp.y = 1 (CONST-WP)."""
+    LUMA = "luma::luma::Luma"
+    n = 0
+    for tgt, src in ((LUMA, "xyz::Xyz"), (LUMA, "yxy::Yxy"), ("xyz::Xyz", LUMA), ("yxy::Yxy", LUMA)):
+        lst = impls.get((tgt, src), [])
+        key = "%s<-%s" % (tgt.split("::")[-1], src.split("::")[-1])
+        if len(lst) != 1:
+            rep.fail("ANCHOR", "conv:" + key, "expected exactly one hand-written impl, found %d" % len(lst))
+            continue
+        im, b = lst[0]
+        n += 1
+        luma_ty = im["self_s"] if tgt == LUMA else im["trait_args_s"][0]
+        targs = alg.split_type(luma_ty)[1]
+        st, t = targs[0], targs[1]
+
+        def ref(R, c, tgt=tgt, src=src, st=st, t=t):
+            tf = "<%s as luma::LumaStandard>::TransferFn,%s,%s" % (st, t, t)
+            if tgt == LUMA:
+                y = c.fields["y"] if src == "xyz::Xyz" else c.fields["luma"]
+                return Struct(LUMA, {"luma": S.ev.uninterpreted("encoding::FromLinear::from_linear<%s>" % tf, [y]), "standard": CR.PH})
+            lin = S.ev.uninterpreted("encoding::IntoLinear::into_linear<%s>" % tf, [c.fields["luma"]])
+            xn, yn, zn = CR.wp(R)
+            if tgt == "xyz::Xyz":
+                return Struct(tgt, {"x": R.mul(xn, lin), "y": R.mul(yn, lin), "z": R.mul(zn, lin), "white_point": CR.PH})
+            sm = R.add(xn, yn, zn)
+            ok = R.valid(sm)   # the guard of Yxy<-Xyz, through which the code derives the chromaticity; always true for a real white point
+            return Struct(tgt, {"x": R.ite(ok, R.div(xn, sm), 0), "y": R.ite(ok, R.div(yn, sm), 0), "luma": lin, "white_point": CR.PH})
+        check_ref(rep, "ALG-REF", "conv:" + key, S, b, ref, names=["c"])
+    rep.floor("luma edges", n, 4)
+
+
 def run(F, rep, tier="quick", extra=None, only=None):
     rep.trusted += ["rustc name resolution / type check", "operator table of rules/sym.py", "published definitions transcribed in rules/convrefs.py and rules/consts.py",
                     "axioms: cbrt(x)^3=x, sqrt(x)^2=x, powf(x,1/3)=cbrt(x)"]
@@ -76,6 +111,8 @@ def run(F, rep, tier="quick", extra=None, only=None):
             continue
         im, b = lst[0]
         check_ref(rep, "ALG-REF", "conv:" + key, S, b, lambda R, c, ref=ref: ref(R, c), names=["c"])
+    # ------------------------------------------------------------ luma edges: Y is the linear luma; a gray sits at the white point's chromaticity
+    check_luma_edges(F, rep, S, impls)
     # ------------------------------------------------------------ polar forms
     for polar, rect, huety, fa, fb, keep, chroma, phantom in POLAR:
         pk, rk = polar.split("::")[-1], rect.split("::")[-1]
